@@ -372,8 +372,59 @@ class RefCatchDataset(ldc.Dataset):
 
 
 # ---------------------------------------------------------------- builder
+class UserSource(lazy_dataset.Dataset):
+    """A user-written dataset: `__len__`, integer `__getitem__` and an
+    `__iter__` that is an ordinary method, not a generator function: a failure
+    while the iteration is being set up (a file that cannot be opened) is
+    raised by `iter(ds)` itself, before the first `next()`."""
+
+    def __init__(self, n, offset=0):
+        self.n, self.offset = n, offset
+
+    def copy(self, freeze=False):
+        return self.__class__(self.n, self.offset)
+
+    @property
+    def indexable(self):
+        return True
+
+    @property
+    def ordered(self):
+        return True
+
+    def __len__(self):
+        return self.n
+
+    def __getitem__(self, item):
+        if isinstance(item, numbers.Integral):
+            i = int(item)
+            if i < 0:
+                i += self.n
+            if not 0 <= i < self.n:
+                raise IndexError(item)
+            return {'src': self.offset + i}
+        return super().__getitem__(item)
+
+    def __iter__(self, with_key=False):
+        if with_key:
+            raise ldc._ItemsNotDefined(self.__class__.__name__)
+        ctx = CTX
+        if ctx is not None:
+            f = ctx.fault_for('src_iter', (0,))
+            if f is not None:
+                k, i = f
+                e = EXC_KINDS[k]('src_iter', i)
+                ctx.raised.append(e)
+                ctx.fired[k] = ctx.fired.get(k, 0) + 1
+                ctx.event('raise', 'src_iter', (), k)
+                raise e
+        return iter([{'src': self.offset + i} for i in range(self.n)])
+
+
 def make_source(src, offset=0):
     n = src['n']
+    if src.get('kind', 'list') == 'user':
+        return UserSource(n, offset)
     if src.get('kind', 'list') == 'dict':
         return lazy_dataset.new({'k%d' % (offset + i): {'src': offset + i}
                                  for i in range(n)})
